@@ -120,60 +120,64 @@ Definition trak_of (trak : mbox) : option (trak_h * hdr_trak) :=
   | _, _, _, _, _, _, _ => None
   end))))))))).
 
-(* Size() of the table boxes as they stand in the tree = stbl_var_size of the tables read out of it *)
-Definition is_table_name (n : list N) : bool :=
-  existsb (bytes_eqb n) [n_stts; n_ctts; n_stsc; n_stsz; n_stco; n_co64; n_stss; n_sdtp].
+(* segment durations of an elst box after writeUptoMdat *)
+Fixpoint set_segs (es : list (N * N * N * N)) (g : list N) : list (N * N * N * N) :=
+  match es, g with
+  | (_, t, ri, rf) :: et, d :: gt => (d, t, ri, rf) :: set_segs et gt
+  | _, _ => es
+  end.
 
 (* ---------- writing the tree ---------- *)
 (* a box as the encoder writes it: compact header announcing Size() *)
 Definition mk_leaf (l : leaf) : mbox := MLeaf (mkHdr (leaf_name l) (size_leaf l) 8) l (dflt_rsv l).
 Definition mk_cont (n : list N) (cs : list mbox) : mbox := MCont (mkHdr n (8 + sumN (map size_box cs)) 8) cs.
 
+(* The rewriting functions are generic in two views: k is applied to every rebuilt leaf, u to every box the crop does
+   not touch.  k = u = identity: the boxes in memory when writeUptoMdat encodes them (out_moov).  k = leaf_as_decoded,
+   u = norm_box: the tree a decoder builds from those bytes (out_moov_decoded; C10TreeProofs). *)
+Section Views.
+Context (k : leaf -> leaf) (u : mbox -> mbox).
+
 Definition upd_named (n : list N) (f : mbox -> mbox) (cs : list mbox) : list mbox :=
-  map (fun c => if named n c then f c else c) cs.
+  map (fun c => if named n c then f c else u c) cs.
 Definition upd_cont (f : list mbox -> list mbox) (t : mbox) : mbox :=
-  match t with MCont h cs => mk_cont (h_name h) (f cs) | _ => t end.
+  match t with MCont h cs => mk_cont (h_name h) (f cs) | _ => u t end.
 
 (* `for _, ch := range stbl.Children { switch ch.Type() { ... } }` after cropStblChildren and updateChunkOffsets *)
 Definition put_table (tb : tables) (c : mbox) : mbox :=
   match c with
-  | MLeaf _ (LStts v f _) _ => mk_leaf (LStts v f (combine (t_stts_count tb) (t_stts_delta tb)))
+  | MLeaf _ (LStts v f _) _ => mk_leaf (k (LStts v f (combine (t_stts_count tb) (t_stts_delta tb))))
   | MLeaf _ (LCtts v f _ _) _ =>
-      match t_ctts tb with Some ct => mk_leaf (LCtts v f (ct_end ct) (ctts_offs_of ct)) | None => c end
+      match t_ctts tb with Some ct => mk_leaf (k (LCtts v f (ct_end ct) (ctts_offs_of ct))) | None => u c end
   | MLeaf _ (LStsc v f _ _ _) _ =>
-      mk_leaf (LStsc v f (map (fun e => (first_chunk e, spc e)) (sc_entries (t_stsc tb))) (sc_single (t_stsc tb))
-                     (sc_ids (t_stsc tb)))
+      mk_leaf (k (LStsc v f (map (fun e => (first_chunk e, spc e)) (sc_entries (t_stsc tb))) (sc_single (t_stsc tb))
+                        (sc_ids (t_stsc tb))))
   | MLeaf _ (LStsz v f _ _ _) _ =>
-      mk_leaf (LStsz v f (sz_uniform (t_stsz tb)) (sz_number (t_stsz tb)) (sz_sizes (t_stsz tb)))
+      mk_leaf (k (LStsz v f (sz_uniform (t_stsz tb)) (sz_number (t_stsz tb)) (sz_sizes (t_stsz tb))))
   | MLeaf _ (LTab n w v f _) _ =>
       let o := if bytes_eqb n n_stco then t_stco tb else if bytes_eqb n n_co64 then t_co64 tb
                else if bytes_eqb n n_stss then t_stss tb else None in
-      match o with Some items => mk_leaf (LTab n w v f items) | None => c end
-  | MLeaf _ (LSdtp v f _) _ => match t_sdtp tb with Some es => mk_leaf (LSdtp v f es) | None => c end
-  | _ => c
+      match o with Some items => mk_leaf (k (LTab n w v f items)) | None => u c end
+  | MLeaf _ (LSdtp v f _) _ => match t_sdtp tb with Some es => mk_leaf (k (LSdtp v f es)) | None => u c end
+  | _ => u c
   end.
 
 Definition set_tkhd_dur (nd : N) (c : mbox) : mbox :=
   match c with
-  | MLeaf _ (LTkhd v f ct mt tid _ layer ag vol wd ht) _ => mk_leaf (LTkhd v f ct mt tid nd layer ag vol wd ht)
-  | _ => c
+  | MLeaf _ (LTkhd v f ct mt tid _ layer ag vol wd ht) _ => mk_leaf (k (LTkhd v f ct mt tid nd layer ag vol wd ht))
+  | _ => u c
   end.
 Definition set_mvhd_dur (nd : N) (c : mbox) : mbox :=
   match c with
-  | MLeaf _ (LMvhd v f ct mt ts _ rate vol nt) _ => mk_leaf (LMvhd v f ct mt ts nd rate vol nt)
-  | _ => c
-  end.
-Fixpoint set_segs (es : list (N * N * N * N)) (g : list N) : list (N * N * N * N) :=
-  match es, g with
-  | (_, t, ri, rf) :: et, d :: gt => (d, t, ri, rf) :: set_segs et gt
-  | _, _ => es
+  | MLeaf _ (LMvhd v f ct mt ts _ rate vol nt) _ => mk_leaf (k (LMvhd v f ct mt ts nd rate vol nt))
+  | _ => u c
   end.
 Fixpoint put_elsts (gs : list (list N)) (cs : list mbox) : list mbox :=
   match cs with
   | [] => []
   | c :: t => match c, gs with
-              | MLeaf _ (LElst v f es) _, g :: gt => mk_leaf (LElst v f (set_segs es g)) :: put_elsts gt t
-              | _, _ => c :: put_elsts gs t
+              | MLeaf _ (LElst v f es) _, g :: gt => mk_leaf (k (LElst v f (set_segs es g))) :: put_elsts gt t
+              | _, _ => u c :: put_elsts gs t
               end
   end.
 
@@ -181,10 +185,12 @@ Fixpoint put_elsts (gs : list (list N)) (cs : list mbox) : list mbox :=
 Definition upd_trak (tb : tables) (x : hdr_trak) (trak : mbox) : mbox :=
   let '(nd, _, ed) := x in
   upd_cont (fun cs =>
-    upd_named n_tkhd (set_tkhd_dur nd)
-      (upd_named n_edts (upd_cont (put_elsts (match ed with Some gs => gs | None => [] end)))
-        (upd_named n_mdia (upd_cont (upd_named n_minf (upd_cont (upd_named n_stbl (upd_cont (map (put_table tb)))))))
-           cs))) trak.
+    map (fun c =>
+      if named n_tkhd c then set_tkhd_dur nd c
+      else if named n_edts c then upd_cont (put_elsts (match ed with Some gs => gs | None => [] end)) c
+      else if named n_mdia c then
+        upd_cont (upd_named n_minf (upd_cont (upd_named n_stbl (upd_cont (map (put_table tb)))))) c
+      else u c) cs) trak.
 
 Fixpoint upd_moov_children (nd : N) (xs : list (tables * hdr_trak)) (cs : list mbox) : list mbox :=
   match cs with
@@ -193,13 +199,72 @@ Fixpoint upd_moov_children (nd : N) (xs : list (tables * hdr_trak)) (cs : list m
     if named n_trak c then
       match xs with
       | (tb, x) :: xt => upd_trak tb x c :: upd_moov_children nd xt t
-      | [] => c :: t
+      | [] => u c :: upd_moov_children nd xs t
       end
-    else (if named n_mvhd c then set_mvhd_dur nd c else c) :: upd_moov_children nd xs t
+    else (if named n_mvhd c then set_mvhd_dur nd c else u c) :: upd_moov_children nd xs t
   end.
 
-Definition out_moov (nd : N) (xs : list (tables * hdr_trak)) (moov : mbox) : mbox :=
+Definition out_moov_g (nd : N) (xs : list (tables * hdr_trak)) (moov : mbox) : mbox :=
   upd_cont (upd_moov_children nd xs) moov.
+End Views.
+
+Definition out_moov := out_moov_g (fun l => l) (fun t => t).
+
+(* ---------- what a decoder makes of the rebuilt leaves ---------- *)
+Definition fitsw (w : nat) (v : N) : bool := v <? 256 ^ N.of_nat w.
+Definition vf_fits (v f : N) : bool := (v <? 256) && (f <? 16777216).
+(* the sample description ids StscBox.Encode writes *)
+Definition stsc_written (es : list (N * N)) (single : N) (ids : list N) : list N := map snd (stsc_raw es single ids).
+
+(* every number of a rebuilt leaf fits the width of its field (the encoders convert with uintN(v): a larger value would be
+   cut), version < 256, flags < 2^24, the lengths the count fields announce are the lengths written; other kinds: true *)
+Definition leaf_fits (l : leaf) : bool :=
+  match l with
+  | LStts v f es =>
+      vf_fits v f && (lenN es <? 4294967296) && forallb (fun p => fitsw 4 (fst p) && fitsw 4 (snd p)) es
+  | LCtts v f ends offs =>
+      vf_fits v f && (lenN offs <? 4294967296) && (lenN ends =? 1 + lenN offs) && (hd 1 ends =? 0) &&
+      forallb (fitsw 4) ends && forallb (fitsw 4) offs
+  | LStsc v f es single ids =>
+      vf_fits v f && (lenN es <? 4294967296) && negb ((single =? 0) && (lenN ids <? lenN es)) &&
+      forallb (fun p => fitsw 4 (fst p) && fitsw 4 (snd p)) es && forallb (fitsw 4) (stsc_written es single ids) &&
+      match stsc_ids 0 0 [] (stsc_written es single ids) with Some _ => true | None => false end
+  | LStsz v f uni num ss =>
+      vf_fits v f && fitsw 4 uni && fitsw 4 num && (if uni =? 0 then lenN ss =? num else lenN ss =? 0) &&
+      forallb (fitsw 4) ss
+  | LTab n w v f items =>
+      vf_fits v f && (lenN items <? 4294967296) && forallb (fitsw w) items &&
+      ((bytes_eqb n n_stco && Nat.eqb w 4) || (bytes_eqb n n_stss && Nat.eqb w 4) || (bytes_eqb n n_co64 && Nat.eqb w 8))
+  | LSdtp v f _ => vf_fits v f
+  | LElst v f es =>
+      vf_fits v f && (v <=? 1) && (lenN es <? 4294967296) &&
+      forallb (fun e => match e with (d, t, ri, rf) =>
+                 fitsw (if v =? 1 then 8 else 4) d && fitsw (if v =? 1 then 8 else 4) t && fitsw 2 ri && fitsw 2 rf end) es
+  | LMvhd v f ct mt ts du rate vol nt =>
+      vf_fits v f && fitsw (if v =? 1 then 8 else 4) ct && fitsw (if v =? 1 then 8 else 4) mt && fitsw 4 ts &&
+      fitsw (if v =? 1 then 8 else 4) du && fitsw 4 rate && fitsw 2 vol && fitsw 4 nt
+  | LTkhd v f ct mt tid du layer ag vol wd ht =>
+      vf_fits v f && fitsw (if v =? 1 then 8 else 4) ct && fitsw (if v =? 1 then 8 else 4) mt && fitsw 4 tid &&
+      fitsw (if v =? 1 then 8 else 4) du && fitsw 2 layer && fitsw 2 ag && fitsw 2 vol && fitsw 4 wd && fitsw 4 ht
+  | _ => true
+  end.
+Fixpoint tree_fits (t : mbox) : bool :=
+  match t with
+  | MLeaf _ l _ => leaf_fits l
+  | MCont _ cs => forallb tree_fits cs
+  | MUnknown _ _ => true
+  | MPre _ _ _ cs => forallb tree_fits cs
+  end.
+
+(* DecodeStscSR rebuilds (singleSampleDescriptionID, SampleDescriptionID) from the ids it reads: after a crop the slice form
+   in memory (e.g. ids [1;1] left of [1;1;2]) and the decoded form (single id 1) can differ; the bytes are the same *)
+Definition leaf_as_decoded (l : leaf) : leaf :=
+  match l with
+  | LStsc v f es single ids =>
+      match stsc_ids 0 0 [] (stsc_written es single ids) with Some (s', i') => LStsc v f es s' i' | None => l end
+  | _ => l
+  end.
+Definition out_moov_decoded := out_moov_g leaf_as_decoded norm_box.
 
 (* ---------- the file ---------- *)
 Definition is_mdat (t : mbox) : bool := named n_mdat t.
